@@ -1128,6 +1128,18 @@ def run(ctx):
     ctx.cov['exhaustive'] = False
 
 
+def run_cases_retry(ctx, name, cases, shard):
+    """ctx.run_cases; when coqc itself failed (e.g. another builder recompiled a shared Lib/*.vo in
+    between: 'inconsistent assumptions'), rebuild our .vo files and try once more"""
+    bad = ctx.run_cases(name, IMPORTS, cases, shard=shard)
+    if bad is None:
+        ctx.failed_stages[:] = [s for s in ctx.failed_stages if s[0] != 'cases_' + name]
+        ctx.cov['evaluations'] -= len(cases)
+        ctx.build(['Model/WasmBinVal.vo'])
+        bad = ctx.run_cases(name, IMPORTS, cases, shard=shard)
+    return bad
+
+
 def correspondence(ctx, quick, dmax):
     if True:
         c1, r1, stats = corr_modules(ctx, 150 if quick else 2000, dmax)
@@ -1137,7 +1149,7 @@ def correspondence(ctx, quick, dmax):
         for r in (r1[:3] + r2[5:8] + r3[:2]):
             ctx.note_sample({'kind': r[0], 'value': repr(r[1])[:300]})
         for name, cases, recs, shard in (('modules', c1, r1, 20), ('instrs', c2, r2, 120), ('malformed', c3, r3, 60)):
-            bad = ctx.run_cases(name, IMPORTS, cases, shard=shard)
+            bad = run_cases_retry(ctx, name, cases, shard)
             if bad:
                 for i in bad[:5]:
                     ctx.log('model/implementation disagree on', name, repr(recs[i])[:600])
